@@ -13,9 +13,12 @@ RULE = ('seeded sessions of 1-6 ops from {shell, exec_out, root, streaming_shell
         'fragmented; distinct = distinct event-log digests')
 ASSUMPTIONS = ['the device model emits only behaviour a conforming adbd can show (DESIGN 2.3)',
                'expected text is bytes.decode("utf8","backslashreplace") computed by the harness, not by adb_shell']
-EXPECT_PROBES = {'all': ['frag_reads', 'hdr_split', 'payload_split', 'empty_payload_wrte', 'utf8_split_across_wrte', 'c01_link_died_mid_command', 'late_open_okay', 'c01_ghost_left_packets_parked', 'c01_stale_generator_resumed']}
+EXPECT_PROBES = {'all': ['frag_reads', 'hdr_split', 'payload_split', 'empty_payload_wrte', 'utf8_split_across_wrte', 'c01_link_died_mid_command', 'late_open_okay', 'c01_ghost_left_packets_parked', 'c01_stale_generator_resumed', 'c01_equal_large_payloads']}
 KINDS = ['shell', 'shell', 'exec_out', 'streaming_shell', 'streaming_shell', 'root']
 OWN = ('wrong-result', 'unexpected-exception', 'timeout-instead-of-result', 'missing-exception', 'wrong-exception', 'hang', 'no-termination', 'deadlock')
+
+
+KINDS_BIG = ['shell', 'exec_out', 'streaming_shell']
 
 
 def generate(seed, tier):
@@ -29,6 +32,19 @@ def generate(seed, tier):
             if c['content'].get('size', 0) >= 3 and g.chance(0.7):
                 c['content']['prefix_hex'] = 'efbbbf'
     case = {'seed': seed, 'scn': scn}
+    if g.chance(0.03):
+        # a device with a large maxdata writes several large payloads of one and the same size in a row
+        d = scn['device']
+        d['maxdata'] = g.pick([262144, 1048576])
+        chunk = g.pick([65536, 65537, 100000, 131072])
+        k = g.int(2, 3)
+        name = S.add_cmd(g, d, 100)
+        d['cmds'][name]['content'] = {'seed': g.int(0, 1 << 30), 'size': chunk * k, 'alpha': g.pick(['bin', 'ids'])}
+        d['cmds'][name]['cuts'] = [chunk] * k
+        scn['config'] = {'frag': g.pick(['whole', 'boundary']), 'p_empty': 0.0, 'call_cost': 1e-6}
+        scn['actors'][0] = [ops[0], {'op': g.pick(KINDS_BIG), 'cmd': name, 'decode': g.chance(0.3)}]
+        case['big_equal_chunks'] = True
+        return case
     if g.chance(0.06):
         # a streaming_shell generator is read part-way, the connection is closed and opened again, another command runs, and then
         # the old generator is resumed: it gets nothing (its stream is gone) and the new command gets exactly its own output
@@ -91,6 +107,8 @@ def evaluate(case, tapes=None):
     scn = case['scn']
     run, tape = run_scn(case, 'scn', 0, tapes)
     absorb(out, run, tape)
+    if case.get('big_equal_chunks'):
+        out['probes']['c01_equal_large_payloads'] = 1
     fired = run.link.faults_fired
     if fired:
         victim = len(run.results[0])
